@@ -13,18 +13,19 @@ func (*constRange) Exit(node *Node) {
 		if n.Operator == ".." {
 			if min, ok := n.Left.(*IntegerNode); ok {
 				if max, ok := n.Right.(*IntegerNode); ok {
-					size := max.Value - min.Value + 1
 					// In case the max < min, patch empty slice
 					// as max must be greater than equal to min.
-					if size < 1 {
+					if max.Value < min.Value {
 						Patch(node, &ConstantNode{
 							Value: make([]int, 0),
 						})
 						return
 					}
-					// In this case array is too big. Skip generation,
-					// and wait for memory budget detection on runtime.
-					if size >= 1e6 {
+					size := max.Value - min.Value + 1
+					// In this case array is too big (size <= 0 means that
+					// max-min+1 overflowed). Skip generation, and wait for
+					// memory budget detection on runtime.
+					if size <= 0 || size >= 1e6 {
 						return
 					}
 					value := make([]int, size)
